@@ -44,6 +44,13 @@ def pipeline_jobs(ctx, n):
             ops = [["P", 0], ["P", 1]] + [["P", 0]] * 40 + [["P", 2], ["P", 1]] * 40
             reqs.append({"iface": iface, "split": 0, "shuffle": 0, "repeat": False, "file_parallelism": 2, "multi": {"streams": streams, "ops": ops}})
         jobs.append({"dataset": spec, "requests": reqs})
+    # the description's examples_per_shard is lowered between two sessions (public setter): the first shards hold more examples than it says
+    Wr = ["W", 0, None, True]
+    for fmt in ("tfrec", "fb", "npz"):
+        spec = {"format": fmt, "compression": "", "eps": 4, "sessions": [{"kind": "filler", "sub": [], "reopen": False, "ops": [Wr] * 7},
+                                                                       {"kind": "filler", "sub": [], "reopen": False, "ops": [Wr] * 3, "set_eps": 2}]}
+        jobs.append({"dataset": spec, "requests": [{"iface": iface, "split": 0, "shuffle": sh, "repeat": False, "file_parallelism": 2, "process": False}
+                                                   for iface in iterlib.ifaces_for(spec) for sh in (0, 3)]})
     return jobs
 
 
